@@ -28,7 +28,8 @@ REQUIRED = {"rerun.lists_exactly_unsuccessful": {"quick": 500, "thorough": 25000
             "rerun.second_run_selects_exactly": {"quick": 250, "thorough": 12000},
             "rerun.stale_file_removed": {"quick": 20, "thorough": 1000},
             "rerun.second_run_executes_exactly": {"quick": 250, "thorough": 12000}}
-REQUIRED_SEEN = {"listed_status": ["failed", "error", "hook_error"]}
+REQUIRED_SEEN = {"listed_status": ["failed", "error", "hook_error"], "feature_order": ["directory", "explicit_reversed"],
+                 "fail_fast_environment": ["feature", "rule"]}
 NSHARDS = {"quick": 16, "thorough": 16}
 
 
@@ -64,7 +65,16 @@ def one_history(lab, mon, rng, case, stale, sample=False):
         if stale:
             with open("rerun.txt", "w") as fh:
                 fh.write("# -- RERUN: stale\nfeatures/f0.feature:3\n")
-        feats = parse_features(collect_feature_locations(["features"]))
+        files = [os.path.join("features", f["file"]) for f in case["program"]["features"]]
+        order = "directory"
+        if len(files) > 1 and rng.random() < 0.5:
+            # explicit file arguments in an order that differs from the sorted path order: "in run order" is observable
+            files.reverse()
+            order = "explicit_reversed"
+            feats = parse_features(collect_feature_locations(files))
+        else:
+            feats = parse_features(collect_feature_locations(["features"]))
+        mon.seen("feature_order", order)
 
         def formatters(config, st):
             return [RerunFormatter(StreamOpener(filename="rerun.txt"), config)]
@@ -73,8 +83,19 @@ def one_history(lab, mon, rng, case, stale, sample=False):
         def rec1(state, context, name, elem, tag):
             if name == "before_scenario":
                 entered1.append(str(elem.location))
+        plugins = [rec1]
+        fail_fast = case.get("fail_fast")
+
+        def skip_rest(state, context, name, elem, tag):
+            # a "fail fast per feature / rule" environment.py: skip what is left of the container once a scenario failed
+            if name == "after_scenario" and elem.status.has_failed():
+                target = getattr(context, "rule", None) if fail_fast == "rule" else None
+                (target or context.feature).skip(reason="fail fast")
+        if fail_fast:
+            plugins.append(skip_rest)
+            mon.seen("fail_fast_environment", fail_fast)
         obs = lab.run(case["program"], args=case["args"], features=feats, formatters=formatters,
-                      hook_fault=case.get("hook_fault"), hook_plugins=[rec1])
+                      hook_fault=case.get("hook_fault"), hook_plugins=plugins)
         W = lambda **kw: RB.witness(case, **kw)
         if obs.escaped is not None:
             mon.check("run.no_exception_escapes", False, lambda: W(escaped=repr(obs.escaped)))
@@ -223,6 +244,8 @@ def run(spec, mon):
             ks = [k for k, h in enumerate(obs0.hooks) if h[0] in ("before_scenario", "after_scenario", "before_step", "after_step", "before_tag")]
             if ks:
                 case = dict(case, hook_fault={"k": rng.choice(ks), "exc": rng.choice(["Exception", "AssertionError"])})
+        if i % 5 == 3:
+            case = dict(case, fail_fast=rng.choice(["feature", "rule"]))
         one_history(lab, mon, rng, case, stale=(i % 3 == 0), sample=(i == 2 and spec["shard"] == 0))
     for i in range(1 if tier == "quick" else 25):
         gen = {"outcomes": outs, "max_features": 2, "p_nonpass": 0.5, "p_stepless": 0.0}
